@@ -383,13 +383,15 @@ fn check_serialisation_order(w: &World, root: Lid, stats: &mut Stats) -> Result<
                     n.strip_prefix("xmlns:").map(|p| (p.to_string(), val.clone()))
                 }
             })
+            // (the built-in declaration of the xml prefix is written only where an ancestor has bound
+            // the prefix to something else: whether it appears is not a matter of order)
+            .filter(|(p, u)| !(p == "xml" && u == "http://www.w3.org/XML/1998/namespace"))
             .collect();
         let got_attr: Vec<(String, String)> = starts[i]
             .iter()
             .filter(|(n, _)| n != "xmlns" && !n.starts_with("xmlns:"))
             .map(|(n, val)| (n.rsplit(':').next().unwrap().to_string(), val.clone()))
             .collect();
-        // (only the built-in declaration of the xml prefix is not written)
         let exp_decl: Vec<(String, String)> = mm
             .ns
             .iter()
